@@ -43,6 +43,8 @@ class FakePath:
 
 
 class FakeOs:
+    SEEK_SET, SEEK_CUR, SEEK_END = 0, 1, 2
+
     def __init__(self, registry):
         self.path = FakePath(registry)
         self.removed = []
